@@ -128,9 +128,9 @@ def msg_scenarios(rng, tier, runner):
 
 def sample_scenarios(rng, tier):
     """the repository's sample messages (Test/BUFR: data present bit-maps and quality operators 2 22 - 2 37, 2 06/2 07,
-    local descriptors, compressed data): decode, re-encode with the original compression, three rounds.  The
-    bit-map operators are outside the model: these chains run on the implementation alone (`nomodel`) and are
-    judged by the property's oracle."""
+    local descriptors, compressed data): decode, re-encode with the original compression, three rounds; judged by
+    the property's oracle and, since the bit-map operators are modelled (BufrModel/Bitmap.lean), tied to the model
+    line by line."""
     import glob, os
     from vlib import tables
     out = []
@@ -153,8 +153,44 @@ def sample_scenarios(rng, tier):
                     ls += ["ds.decodemsg " + (one.hex() if r == 0 else "@"), "dd.list 0", "dd.vals 0", "dd.list 1", "dd.vals 1",
                            "ds.hdr d", "dd.tocur", "ds.msg s -1"]
                 out.append(Scenario("sample-%s-%d-%s" % (os.path.basename(f)[:-5], k, tb), ls,
-                                    {"kind": "msg-sample", "tables": tb, "nomodel": True, "views": 2}))
+                                    {"kind": "msg-sample", "tables": tb, "views": 2}))
             pos = m.find(b"BUFR", pos + ln); k += 1
+    return out
+
+def wide_scenarios(rng, n):
+    """unscaled integer elements of 33-64 bits (synthetic local table 0 62 001-005) holding patterns with the top bit
+    set, which the library keeps in an int64 as negative numbers: 2^63 + small, 2^64 - 2, 2^(w-1) ..., in two or
+    three subsets, compressed and not, through the decode/encode chain.  (`ss.fill` keeps clear of these patterns;
+    added after a seeded change turned negative int64 values into "missing" in the compressed writer only.)"""
+    out = []
+    B, D = P["syn"]
+    wide = [(62001, 33), (62002, 40), (62003, 48), (62004, 63), (62005, 64)]
+    others = [d for d in sorted(B) if d // 1000 == 63][:40]
+    for i in range(n):
+        k = rng.choice([1, 2, 2, 3])
+        els = [rng.choice(wide) for _ in range(k)]
+        if i % 2 == 0 and (62005, 64) not in els:
+            els[0] = (62005, 64)
+        t = []
+        pos = []
+        for d, w in els:
+            if rng.random() < 0.5:
+                t.append(rng.choice(others))
+            pos.append((len(t), w)); t.append(d)
+        nsub = rng.choice([2, 2, 3])
+        comp = rng.choice([0, 1, 1])
+        ls = ["T.use syn", "tm.new %d %s" % (rng.choice([3, 4, 4]), " ".join("%06d" % d for d in t))]
+        for s_ in range(nsub):
+            ls += ["ss.new", "ss.expand %d" % s_, "ss.fill %d %d %d" % (s_, rng.randrange(1, 2 ** 31), rng.choice([0, 1, 1]))]
+            for p_, w in pos:
+                top = 1 << (w - 1)
+                raw = rng.choice([top, top + rng.randrange(1, 1000), (1 << w) - 2, top | rng.randrange(top), rng.randrange(top), (1 << w) - 1])
+                ls.append("ss.setraw %d %d %d" % (s_, p_, raw))
+        for s_ in range(nsub):
+            ls += ["ss.list %d" % s_, "ss.vals %d" % s_]
+        ls += ["ds.invalid", "ds.encode %d" % comp]
+        out.append(Scenario("wide-%d" % i, ls + _tail(nsub, comp),
+                            {"tables": "syn", "ed": 4, "template": t, "nsub": nsub, "comp": comp, "kind": "own"}))
     return out
 
 def scenarios(rng, tier, runner):
@@ -208,6 +244,7 @@ def scenarios(rng, tier, runner):
         out.append(s)
         if i % 3 == 0 or forced:
             stage1.append(Scenario("b-%d" % i, ls, dict(meta)))
+    out += wide_scenarios(rng, 40 if tier == "quick" else 600)
     # foreign messages: reference re-encoding of what the implementation built
     c1 = run_all(runner, stage1, "impl")
     stage2, keep = [], []
